@@ -25,6 +25,19 @@ theorem drop_releases_leaves (ρ : Nat → Nat) (ty : GTy) (a : Nat) :
     dropTy prog ρ ty a = (leaves ρ ty a).map (fun p => Ev.drop p.1 p.2) :=
   dropTy_eq ρ ty a
 
+/-- T2a, read as "exactly once": the addresses the drop function releases are, as a list (order
+    and multiplicity), the droppable leaves of the value — a leaf of size 0 counts like any other
+    (two zero-sized leaves may share an address; each is released once) — and the drop function
+    emits nothing but those releases. -/
+theorem drop_visits_leaves_exactly_once (ρ : Nat → Nat) (ty : GTy) (a : Nat) :
+    dropped (dropTy prog ρ ty a) = leaves ρ ty a
+    ∧ (dropTy prog ρ ty a).length = (leaves ρ ty a).length
+    ∧ ∀ p, (dropped (dropTy prog ρ ty a)).count p = (leaves ρ ty a).count p := by
+  have h : dropped (dropTy prog ρ ty a) = leaves ρ ty a := by
+    rw [dropTy_eq]; exact dropped_map_mkDrop _
+  refine ⟨h, ?_, fun p => by rw [h]⟩
+  rw [dropTy_eq, List.length_map]
+
 /-- T2b. The clone function of `ty` creates one host value per droppable leaf of
     the source, reading it at the leaf's address in the source and creating it at
     the same offset in the destination; no statement of the loops is stuck. -/
@@ -214,6 +227,12 @@ theorem list_vtable_clone_iff_drop (κ : Nat → Kind) (cd : Nat → Bool) (t : 
 `enum Z { P(u64, Tz), Q(Tz, Tk), R(Tz), N }`. -/
 
 example : Kinded (fun i => if i = 0 then .prim else if i = 2 then .string else .runtime) (fun _ => true) exZ = true := by
+  decide
+
+/-- `T(Tz, Tz)`-like: two zero-sized leaves behind one another share the address +1 and are
+    released once each -/
+example : (leaves (fun _ => 0) (.enum (.cons (.cons tz (.cons tz .nil)) .nil)) 1000).count (1001, 3) = 2
+    ∧ (dropped (dropTy prog (fun _ => 0) (.enum (.cons (.cons tz (.cons tz .nil)) .nil)) 1000)).count (1001, 3) = 2 := by
   decide
 
 /-- `P(u64, Tz)`: the zero-sized token sits at +16 (it takes no room) and is released there -/
